@@ -106,6 +106,10 @@ SITES = {
     'chars_all': r'\.\s*chars\s*\(\s*\)\s*\.\s*all\s*\(',
     'entry_or_insert_with': r'\.\s*entry\s*\(',
     'is_some_and_fn': r'\.\s*is_some_and\s*\(\s*[a-z_]\w*\s*\)',
+    'opt_map': r'\.\s*map\s*\(',
+    'res_map': r'\.\s*map\s*\(',
+    'bool_then': r'\.\s*then\s*\(',
+    'assert_macro': r'(?<![\w:])assert!\s*\(',
 }
 
 
@@ -190,6 +194,25 @@ def for_indexed(text, k, by_ref, adapter):
 
 
 TAG = '\x01T?\\d+\x01'
+
+
+def self_dot0(text):
+    """every `self.0` (the `str` field of an identifier newtype `struct X(str)`, also written across lines) ==> `self.as_str()`,
+    which the IdZst macro defines as exactly that field"""
+    pat = re.compile(r'\bself(?:\s|' + TAG + r')*\.(?:\s|' + TAG + r')*0\b')
+    m = rs.mask(text)
+    out = []
+    pos = 0
+    n = 0
+    for mm in pat.finditer(text):
+        if m[mm.start()] != rs.CODE:
+            continue
+        out.append(text[pos:mm.start()])
+        out.append('self.as_str()')
+        pos = mm.end()
+        n += 1
+    out.append(text[pos:])
+    return ''.join(out), n
 
 
 def for_rev(text, k):
@@ -516,6 +539,10 @@ def apply(text, args):
         recv = text[rstart:s]
         new = '(match %s { Some(%s) => %s, None => %s })' % (recv.strip(), mm2.group(1).strip(), mm2.group(2).strip().rstrip(','), dflt)
         return text[:rstart] + new + text[close + 1:], 'map_or #%d: `%s`.map_or(%s, |%s| ..)' % (k, rs.norm_ws(recv), dflt, mm2.group(1).strip())
+    if kind == 'assert_macro':
+        # assert!(C);  ==>  if !(C) { vp_str::vp_panic(); }   where vp_panic() requires false: "the assertion cannot fire"
+        close = rs.match_close(text, m, e - 1)
+        return text[:s] + 'if !(%s) { vp_str::vp_panic(); }' % text[e:close].strip() + text[close + 1:], 'assert_macro #%d: assert!(%s) as a call whose precondition is `false` on the failing branch' % (k, rs.norm_ws(text[e:close])[:80])
     if kind == 'format_opaque':
         close = rs.match_close(text, m, e - 1)
         return text[:s] + 'vp_auth::opaque_error_message()' + text[close + 1:], 'format_opaque #%d: format!(..) error message replaced by an opaque String' % k
@@ -585,6 +612,14 @@ def apply(text, args):
             new = '(match %s { Some(__t4_p) => { let %s = *__t4_p; %s }, None => None })' % (recv.strip(), pat[1:].strip(), body)
         else:
             new = '(match %s { Some(%s) => %s, None => None })' % (recv.strip(), pat, body)
+    elif kind == 'opt_map':
+        new = '(match %s { Some(%s) => Some(%s), None => None })' % (recv.strip(), pat, body)
+    elif kind == 'res_map':
+        new = '(match %s { Ok(%s) => Ok(%s), Err(__t4_e) => Err(__t4_e) })' % (recv.strip(), pat, body)
+    elif kind == 'bool_then':
+        if pat:
+            raise T4Error('then closure takes no parameter')
+        new = '(if %s { Some(%s) } else { None })' % (recv.strip(), body)
     elif kind == 'is_ok_and':
         new = '(match %s { Ok(%s) => %s, Err(_) => false })' % (recv.strip(), pat, body)
     elif kind == 'is_none_or':
